@@ -52,6 +52,8 @@ META = {
 def run(ctx):
     obs = ctx.obs
     obs.extra['meta'] = META
+    from ..model.grids import set_wide_longitudes
+    set_wide_longitudes(True)      # also datasets in the 0..360 convention / straddling 180 degrees
     contracts.attach_all(obs, only={'make_polygons_with_holes'})
     total = ctx.n(1200, 25000)
     for case, rng in ctx.cases(total):
